@@ -1655,6 +1655,7 @@ pub fn run_layer6(s: &mut Sink, eng: Eng, g: &mut u64) {
     s.mark(idx, &format!("{}/reuse", eng.name()), &rp0);
     run_group(s, eng, "reuse", &rp0, move |cs| {
         l6_check(cs, eng);
+        l6_nested(cs, eng);
         if eng != Eng::Interp {
             l6_side_effects(cs, eng);
         }
@@ -1728,6 +1729,64 @@ fn l6_check(s: &mut Sink, eng: Eng) {
                     break;
                 }
                 s.nontrivial_hashed(fnv(&bytes) ^ (sq.iter().fold(7u64, |h, i| h * 31 + *i as u64)) ^ ((k as u64) << 40));
+            }
+        }
+    }
+}
+
+static L6_NESTED_MODE: std::sync::atomic::AtomicU8 = std::sync::atomic::AtomicU8::new(1);
+fn l6_nested_helper(a: u64, _b: u64, _c: u64, _d: u64, _e: u64) -> u64 {
+    crate::callseng::nested_run(L6_NESTED_MODE.load(std::sync::atomic::Ordering::Relaxed));
+    a.wrapping_add(7)
+}
+
+/// A helper that itself executes another eBPF program (on a VM of its own, under each engine, on
+/// the calling thread): the caller's stack slots and callee-saved registers are the caller's.
+fn l6_nested(s: &mut Sink, eng: Eng) {
+    for mode in 1..=3u8 {
+        for depth in 0..2u8 {
+            if depth > 0 && eng == Eng::Cl {
+                continue;
+            }
+            let mut body = vec![];
+            body.extend(isa::lddw(6, 0x6600_0000_0000_0066));
+            body.push(isa::stdw(10, -8, 0x1234));
+            body.push(isa::stdw(10, -16, 0x5678));
+            body.push(isa::stdw(10, -248, 0x9abc));
+            body.push(isa::mov64i(1, 100));
+            body.push(isa::call_helper(2));
+            body.push(isa::ldxdw(2, 10, -8));
+            body.push(isa::ldxdw(3, 10, -16));
+            body.push(isa::ldxdw(4, 10, -248));
+            body.push(isa::add64r(0, 2));
+            body.push(isa::add64r(0, 3));
+            body.push(isa::add64r(0, 4));
+            body.push(isa::add64r(0, 6));
+            body.push(isa::EXIT);
+            let prog: Vec<I> = if depth == 0 { body } else {
+                let mut p = vec![isa::call_local(1), isa::EXIT];
+                p.extend(body);
+                p
+            };
+            let want = 107u64.wrapping_add(0x1234 + 0x5678 + 0x9abc).wrapping_add(0x6600_0000_0000_0066);
+            let bytes = isa::enc(&prog);
+            L6_NESTED_MODE.store(mode, std::sync::atomic::Ordering::Relaxed);
+            s.count("evaluations", 1);
+            s.count("states", 1);
+            s.count("transitions", prog.len() as u64);
+            s.count("traces_validated_against_impl", 1);
+            let r = catch(|| {
+                let mut vm = AnyVm::new(VmKind::NoData, Some(&bytes))?;
+                vm.register_helper(2, l6_nested_helper)?;
+                vm.compile(eng)?;
+                vm.exec(eng, vm::empty_raw(), vm::empty_raw())
+            });
+            let rp = json!({"kind":"isa-l6","eng":eng.name()});
+            match r {
+                Ok(Ok(v)) if v == want => {}
+                Ok(Ok(v)) => s.violation(&format!("{}/helper-reenters-library/value-mismatch", eng.name()), format!("a helper that runs a nested program under engine {mode} (1 interpreter, 2 JIT, 3 Cranelift), call depth {depth}: returned {v:#x}, the stack slots, r6 and the helper's result add up to {want:#x}"), rp),
+                Ok(Err(e)) => s.violation(&format!("{}/helper-reenters-library/err", eng.name()), e, rp),
+                Err(m) => s.violation(&format!("{}/helper-reenters-library/{}", eng.name(), panic_class(&m)), m, rp),
             }
         }
     }
@@ -1847,6 +1906,7 @@ pub fn replay_l5(v: &Value) -> Vec<String> {
     let mut s = Sink::new("replay", Tier::Quick, 0, 1, None, None, 3600);
     run_group(&mut s, eng, "reuse", &v.clone(), move |cs| {
         l6_check(cs, eng);
+        l6_nested(cs, eng);
         if eng != Eng::Interp {
             l6_side_effects(cs, eng);
         }
